@@ -75,10 +75,34 @@ Theorem C03_agv_load_micro_states :
 Proof. exact reach_micro_agv_load_b. Qed.
 Print Assumptions C03_agv_load_micro_states.
 
+(* The phases of an AGV agree with what it holds, claims and where it is (agv_phase_b): on the way to a pickup
+   or waiting there it is empty, has a claim and a route; in TRANSIT it carries exactly one job along a route; in
+   OUTAGE and IDLE it is empty and stands at a place (in OUTAGE without a claim); the WORKING phase is never
+   entered - after every applied transition, in every reachable state and micro-state; no side condition. *)
+Theorem C03_agv_phase_one_transition :
+  forall (sigma : oracle) (i : inst) (x : state) (tr : transition) (x' : state),
+    agv_phase_b x = true -> agv_load_b x = true -> apply_transition sigma i x tr = Ok x' -> agv_phase_b x' = true.
+Proof. exact apply_agv_phase_b. Qed.
+Print Assumptions C03_agv_phase_one_transition.
+
+Theorem C03_agv_phase_reachable :
+  forall (sigma : oracle) (i : inst) (fuel : nat) (x0 : state) (joker0 : Z) (ta : bool) (r : result) (m : mw),
+    agv_phase_b x0 = true -> agv_load_b x0 = true -> reach sigma i fuel x0 joker0 ta r m -> agv_phase_b (r_x r) = true.
+Proof. exact reach_agv_phase_b. Qed.
+Print Assumptions C03_agv_phase_reachable.
+
+Theorem C03_agv_phase_micro_states :
+  forall (sigma : oracle) (i : inst) (fuel : nat) (x0 : state) (joker0 : Z) (ta : bool) (r : result) (m : mw)
+         (a : Z) (r' : result) (m' : mw) (lg : mlog),
+    agv_phase_b x0 = true -> agv_load_b x0 = true -> reach sigma i fuel x0 joker0 ta r m ->
+    mw_step sigma i fuel r m a = MOk r' m' lg -> forall tr y, In (tr, y) lg -> agv_phase_b y = true.
+Proof. exact reach_micro_agv_phase_b. Qed.
+Print Assumptions C03_agv_phase_micro_states.
+
 (* non-vacuity: the compiled initial state of a real instance satisfies the hypothesis, and a
    mid-episode state (after accept, accept, accept, decline, accept) is reachable *)
-Example C03_hypothesis_satisfiable : wfs_b ex_inst ex_state = true /\ agv_load_b ex_state = true.
-Proof. vm_compute. split; reflexivity. Qed.
+Example C03_hypothesis_satisfiable : wfs_b ex_inst ex_state = true /\ agv_load_b ex_state = true /\ agv_phase_b ex_state = true.
+Proof. vm_compute. repeat split; reflexivity. Qed.
 Example C03_reachable_nontrivial :
   exists r m, ex_after [1;1;1;0;1]%Z = Some (r, m) /\ wfs_b ex_inst (r_x r) = true /\ s_now (r_x r) = 1019%Z.
 Proof. vm_compute. eexists; eexists; repeat split. Qed.
